@@ -353,13 +353,13 @@ def r_nevra_format(model, rep):
     # the parsed dict is only patched in its epoch entry, with "the parsed epoch, 0 when there is none"
     sts = [ev for ev in cx.events if ev.kind == "store" and ev.target[0] == "sub" and ev.target[1][0] == "call"
            and ev.target[1][1][0] == "global" and ev.target[1][1][1].endswith("parse_nvra")]
-    oke = all(ev.target[2] == ("const", "epoch") and not [g for g in ev.guards if g[0][0] != "exc" and g[1]]
+    oke = all(ev.target[2] == ("const", "epoch") and not [g for g in facts.own_guards(cx, ev, kinds=("raise",)) if g[0][0] != "exc"]
               and ev.value == ("boolop", "or", (("sub", ev.target[1], ("const", "epoch")), ("const", 0))) for ev in sts)
     rep.ob("R-NEVRA-FORMAT", "Rpms._check_nevra:epoch-kept", oke, site=cx.site(sts[0].lineno if sts else f.node),
            msg="" if oke else "the parsed epoch must be kept (only a missing one becomes 0) and nothing else of the parsed name rewritten")
     # refuses a missing epoch, converts an unparsable name into ValueError
     miss = [ev for ev in cx.events if ev.kind == "raise" and any(
-        g[1] and g[0] == ("cmp", ("not in",), (("const", ":"), ("param", cx.params[1]))) for g in ev.guards)]
+        not g[1] and g[0] == ("cmp", ("in",), (("const", ":"), ("param", cx.params[1]))) for g in ev.guards)]
     rep.ob("R-NEVRA-FORMAT", "Rpms._check_nevra:missing-epoch-refused", bool(miss), site=cx.site(f.node),
            msg="" if miss else "a name without ':' (missing epoch) is no longer refused")
     conv = [ev for ev in cx.events if ev.kind == "raise" and any(g[0] == ("exc", "ValueError") for g in ev.guards)
@@ -430,8 +430,8 @@ def r_pred_wiring(model, rep):
     for pred, arg in (("is_valid_release_short", short), ("is_valid_release_version", version), ("is_valid_release_type", typ)):
         call = ("call", ("global", pred), (arg,), ())
         r = [ev for ev in cx.events if ev.kind == "raise" and ev.value[0] == "call" and ev.value[1] == ("global", "ValueError")
-             and any(g[0] == ("unary", "not", call) and g[1] for g in ev.guards)
-             and not [g for g in T.guard_tests(ev) if g[1]][:-1]]
+             and any(T.strip_not(g[0], g[1]) == (call, False) for g in ev.guards)
+             and not [g for g in facts.own_guards(cx, ev, kinds=("raise",)) if g[0][0] != "exc" and T.strip_not(g[0], g[1]) != (call, False)]]
         rep.ob("R-PRED-WIRING", "create_release_id:%s" % pred, bool(r), site=cx.site(f.node),
                msg="" if r else "create_release_id does not refuse (ValueError) what %s refuses for its %s argument"
                % (pred, arg[1]))
